@@ -102,11 +102,7 @@ def task_op(opname):
             if opname == "schedule":
                 pl = k.get("placement", a[1] if len(a) > 1 else None)
                 strat = pl.execution_strategy
-                idx = None
-                for i, s in enumerate(self.available_execution_strategies):
-                    if s is strat or s == strat:
-                        idx = i
-                        break
+                idx = strategy_index(self, strat)
                 extra = [us(pl.placement_time), pl.worker_pool_id, idx, us(strat.runtime) if strat is not None else None]
             elif opname == "start":
                 extra = [us(self._remaining_time), us(self.start_time), us(self.release_time)]
@@ -124,6 +120,19 @@ for _op in ("release", "schedule", "unschedule", "start", "finish", "cancel", "p
 
 
 # ---------------------------------------------------------------- live cluster
+def strategy_index(task, strat):
+    """index of the strategy among the task's: by identity first — ExecutionStrategy.__eq__ is coarse (a request vector
+    equals any vector that covers it, a specific unit equals `any`), so `==` may name another strategy of the task"""
+    if strat is None:
+        return None
+    avail = list(task.available_execution_strategies)
+    for i, s in enumerate(avail):
+        if s is strat:
+            return i
+    same = [i for i, s in enumerate(avail) if strat_desc(s) == strat_desc(strat)]
+    return same[0] if same else None
+
+
 def strat_desc(s):
     return [us(s.runtime), sorted([[r.name, r.id, q] for r, q in s.resources.resources]), s.batch_size]
 
@@ -408,11 +417,7 @@ def sched_wrap(scheduler_cls):
             if kind in ("PLACE_TASK", "CANCEL_TASK"):
                 strat = p.execution_strategy if kind == "PLACE_TASK" else None
                 idx = None
-                if strat is not None:
-                    for i, s in enumerate(p.task.available_execution_strategies):
-                        if s is strat or s == strat:
-                            idx = i
-                            break
+                idx = strategy_index(p.task, strat)
                 decs.append([kind, un(p.task), p.task.state.name, p.worker_pool_id, p.worker_id,
                              us(p.placement_time), idx, us(strat.runtime) if strat is not None else None])
             else:
